@@ -592,7 +592,7 @@ def compile_deftype(compiler, expr, root, tp, name, value):
     return asty.TypeAlias(expr,
        name = asty.Name(name, id = mangle(name), ctx = ast.Store()),
        value = compiler.compile(value).force_expr,
-        **digest_type_params(compiler, tp))
+        **(digest_type_params(compiler, tp) or dict(type_params = [])))
 
 
 @pattern_macro(["global", "nonlocal"], [many(SYM)])
